@@ -12,10 +12,12 @@ def plan(tier):
         # quick: every alg with one enc per class, every enc with one alg per mode
         pairs = sorted(set([(a, (0, 3, 1, 4, 2, 5, 6, 7)[a % 8]) for a in range(21)] + [((3, 6, 7, 8, 1, 11, 14, 17)[e], e) for e in range(8)]))
         two = [(a,) for a in (3, 6, 7, 8, 18)]
+        single = [(a,) for a in (1, 3, 8, 11)]
     else:
         pairs = [(a, e) for a in range(21) for e in range(8)]
         two = [(a,) for a in range(21)]
-    specs = [("roundtrip_layout", pairs), ("roundtrip_options", pairs), ("two_recipients", two)]
+        single = [(a,) for a in range(17)]
+    specs = [("roundtrip_layout", pairs), ("roundtrip_options", pairs), ("two_recipients", two), ("single_key_mixed", single)]
     path, names = gen.specialise(BASE, specs, "c04_gen.py")
     conds = [Cond(path, n, "main", T, n) for n in names]
     conds.append(Cond(BASE, "witness", "witness", 300))
@@ -33,7 +35,7 @@ def plan(tier):
         "bounds": {"alg x enc": "%d pairs (quick) / all 21 x 8 (thorough)" % len(pairs), "curves": "P-256, P-384, P-521, secp256k1, X25519, X448",
                    "plaintext / AAD": "every octet string <= 2 octets, AAD absent or <= 2", "serializations": "compact, flattened, general (1..2 recipients of mixed algs)",
                    "header placement": "protected / shared unprotected / per-recipient", "key forms": "key, 3-key set (symbolic random pick)"},
-        "outside": ["real AES/RSA/ECDH/DEFLATE behaviour (ideal tables): block-aligned vs unaligned plaintexts are indistinguishable here", "3-4 recipients",
+        "outside": ["real AES/RSA/ECDH/DEFLATE behaviour (ideal tables): block-aligned vs unaligned plaintexts are indistinguishable here", "3-4 recipients", "single-key decryption of a multi-recipient token is covered for 2 recipients without ECDH-1PU (single_key_mixed)",
                     "plaintexts near the decompression limit (C17)"],
         "stubs": ["ideal ice environment", "random.choice -> symbolic index"],
         "assumptions": ["ideal-primitive model (DESIGN.md §2.1)"],
